@@ -424,7 +424,33 @@ def rule_P8(ctx) -> None:
                     "message M { message LinesEntry {..} repeated LinesEntry lines = 1; }")
 
 
+def rule_P9(ctx) -> None:
+    """per-package state that the compilers capture (the typing compiler instance) is final before the first type is read"""
+    parser = ctx.repo.mod(M_PARSER)
+    fn = parser.func("generate_code")
+    g = CFG(fn, implicit_exc=False)
+    assigns = [nd for nd in g.nodes if nd.kind == "stmt" and isinstance(nd.stmt, ast.Assign) and any(
+        ast.unparse(t).endswith(".typing_compiler") or ast.unparse(t).endswith(".pydantic_dataclasses") for t in nd.stmt.targets)]
+    reads = [nd for nd in g.nodes if nd.kind == "stmt" and any(isinstance(c, ast.Call) and ast.unparse(c.func) in ("read_protobuf_type", "read_protobuf_service") for c in own_nodes(nd.stmt))]
+    if not assigns or not reads:
+        ctx.inconclusive("P9", "generate_code:options-final-before-reading-types", "option assignments or read calls not found", parser.loc(fn))
+        return
+    late = None
+    for r in reads:
+        reach = g.reach_from_successors(r.id, labels=normal_edge)
+        for a in assigns:
+            if a.id in reach:
+                late = (r, a)
+    if late:
+        r, a = late
+        ctx.refuted("P9", "generate_code:options-final-before-reading-types", "assign-after-read", parser.loc(a.stmt),
+                    f"`{ast.unparse(a.stmt)[:70]}` can execute after types have been read (line {r.line}): compilers created earlier keep the previous typing compiler instance, and the typing imports "
+                    "they registered there are not rendered into the header", "two .proto files of one package; the first uses a repeated field, the last does not")
+    else:
+        ctx.proved("P9", "generate_code:options-final-before-reading-types", parser.loc(fn), f"{len(assigns)} option assignments precede {len(reads)} read sites")
+
+
 def run(ctx) -> None:
-    for name, fn in (("P1", template.rule_P1), ("P2", rule_P2), ("P3", rule_P3), ("P4", rule_P4), ("P5", rule_P5), ("P6", rule_P6), ("P7", rule_P7), ("P8", rule_P8), ("Y2iii", template.rule_Y2iii)):
+    for name, fn in (("P1", template.rule_P1), ("P2", rule_P2), ("P3", rule_P3), ("P4", rule_P4), ("P5", rule_P5), ("P6", rule_P6), ("P7", rule_P7), ("P8", rule_P8), ("Y2iii", template.rule_Y2iii), ("P9", rule_P9)):
         ctx.rules_run.append(name)
         fn(ctx)
